@@ -71,6 +71,41 @@ CHECKS = {
         "Arithmetic on literals, parenthesised literals and a bare comptime block in the position are not judged; extern globals are not generated.",
         "§4 C15",
     ),
+    "C16": (
+        "progmc c16",
+        "bounded-exhaustive enumeration of (generic template, sequence of instantiation tuples, same file / imported) cases; generic calls and hand-substituted monomorphic copies are both executed and compared with a Python model of the template",
+        "10 generic templates with 1-3 comptime parameters (type, usize, struct type, distinct type) used in annotations, casts, array lengths, nested generic calls, inline header references `(comptime T: type, x: T) -> T`, varargs of T and field access x every sequence of 1..3 (thorough 4) instantiation tuples from the template's 3-5 tuple alphabet (equal tuples repeat, different tuples interleave) x generic defined in the same file / in an imported file: the generic calls and the calls of textually substituted copies print their results; both must equal the model.",
+        "The substituted copy is produced by textual substitution in the generator; comptime blocks inside generic bodies are not generated (the compiler does not implement them: see the C05 known finding).",
+        "§4 C16",
+    ),
+    "C19": (
+        "progmc c19",
+        "bounded-exhaustive enumeration of call signatures exercised in both directions across the C boundary, with the host gcc as reference model of the x86-64 System V convention",
+        "1285 (thorough ~3000) signatures: every single-parameter, return-only and identity signature over 13 scalars (every int width, f32, f64, bool, ^i32, ?^i32) and every struct of 1..2 fields (thorough 1..3; quick adds a 1/7 selection of the 3-field ones) over {u8, i16, i32, i64, f32, f64, [3]u8, [2]f32} plus byte-array structs of 15 sizes up to 64 and five 4/5-field mixes; every ordered pair over a 22-type selection; register pressure: 0..8 leading i64 fillers, 0..8 leading f64 fillers and mixed fillers before each of 12 structs. Each signature is exercised Capy -> C (extern function compiled by gcc prints what it received, returns a constant) and C -> Capy (C driver calls a Capy function through a function pointer); the transcripts must equal the generated constants.",
+        "gcc -O1 on the host is the reference; only x86-64 SysV is executed; 128-bit scalars are not passed.",
+        "§4 C19",
+    ),
+    "C20": (
+        "progmc c20",
+        "bounded-exhaustive enumeration of (permutation of globals, assignment of globals to files) configurations of base programs, each compiled by the real CLI and executed, differential against the known result",
+        "7 base programs with 4 mutually dependent movable globals (const chain, type diamond, mutual recursion, comptime block depending on later globals, generic + const + type alias, enum with array-length constant, distinct type + comptime constant; thorough adds a 5-global base): quick = every permutation x 3 file assignments + every one of the 3^4 assignments to {main.capy, fa.capy, fb.capy} in canonical order (1071 programs); thorough = the full product of all permutations x all assignments. Cross-file references are rewritten to `file.name` with the imports added (import cycles included). Acceptance, stdout and exit status must equal the base program's result.",
+        "4-5 movable globals per program (the quantifier allows 12).",
+        "§4 C20",
+    ),
+    "C21": (
+        "progmc c21",
+        "exhaustive enumeration of configurations x compilation histories, each compiled repeatedly by the real CLI in fresh processes; byte equality of the object file and of the diagnostics is the oracle",
+        "74 configurations (21 valid multi-file programs from C20 in three orders/splits, 28 invalid variants with type errors / undefined references / missing imports / errors in two files, the 24 example programs of the repository which use the core module, one generated 129-type program) x 8 (thorough 14) compilations each: three fresh processes in fresh directories (one under a deeper path), one with ASLR disabled (setarch -R), one with a different environment, and after every ordered choice of <= 1 (thorough 2) predecessors out of 3 other programs compiled in the same working directory; main.o and the complete compiler output (timings and the working-directory prefix normalised) must be identical in all of them.",
+        "Address-dependent hashing inside one process is observed through the repeated fresh processes, not enumerated; the link step is excluded (--no-exec).",
+        "§4 C21",
+    ),
+    "C28": (
+        "progmc c28",
+        "bounded-exhaustive enumeration of import graphs over a directory tree and of single-deviation programs, each compiled by the real CLI (--verbose-ast local) and executed, against a reference path resolver",
+        "All 512 directed graphs (self-imports and cycles included) over main.capy, a.capy, d/b.capy with every edge spelled in one of three ways (canonical, `./`-prefixed, detour through `x/..`) (thorough: all three spelling rotations, plus graphs of <= 4 edges that involve d/e/c.capy): main prints `file.id` through every import path of length <= 3 and the output must be what the reference resolver predicts; every reachable file must be parsed exactly once and unreachable files never. 27 deviations: missing target, target not ending in .capy (3 forms), directory as target, targets outside cwd (3 forms incl. a sibling whose name has the cwd as prefix), a target inside the module directory by relative path, #mod of core / a good module / no mod.capy / no src / missing / 7 non-alphanumeric names, import relative to the importer rather than the cwd.",
+        "<= 4 files in <= 3 directories (the quantifier allows 6 files).",
+        "§4 C28",
+    ),
     "C22": (
         "capy-verif lex-mc",
         "bounded-exhaustive input enumeration against invariants (every string <= k over token-class alphabets, every <= 3-word sequence) on the real lexer",
